@@ -31,7 +31,7 @@ type World struct {
 	SSA      map[string]*ssa.Package // module packages by import path
 	LoadS    float64
 	SSAS     float64
-	Promoted int // captured locals promoted to registers (mem2reg.go)
+	Promoted int      // captured locals promoted to registers (mem2reg.go)
 	Renamed  []string // unexported helpers recognised under a new name (renames.go)
 	NFuncs   int
 	funcsMod []*ssa.Function // all functions (incl. anonymous) of production module packages
